@@ -85,36 +85,41 @@ func runC18(r *simkit.Run) {
 		}()
 		r.Probe("runs-with-database")
 	}
-	srv := kprapi.NewHTTPService(pool, c18cfg{write: write}, nil)
-	router := srv.VerifRouter()
-	var nTrig, nShut atomic.Int64
 	stop := make(chan struct{})
-	go func() {
-		ch := srv.GetDecryptionTriggerChannel()
-		for {
-			select {
-			case <-ch:
-				nTrig.Add(1)
-			case <-stop:
-				return
+	// newServer builds the real router with consumers on its two effect channels
+	newServer := func() (http.Handler, *atomic.Int64, *atomic.Int64) {
+		srv := kprapi.NewHTTPService(pool, c18cfg{write: write}, nil)
+		var nTrig, nShut atomic.Int64
+		go func() {
+			ch := srv.GetDecryptionTriggerChannel()
+			for {
+				select {
+				case <-ch:
+					nTrig.Add(1)
+				case <-stop:
+					return
+				}
 			}
-		}
-	}()
-	go func() {
-		ch := srv.VerifShutdownChan()
-		for {
-			select {
-			case <-ch:
-				nShut.Add(1)
-			case <-stop:
-				return
+		}()
+		go func() {
+			ch := srv.VerifShutdownChan()
+			for {
+				select {
+				case <-ch:
+					nShut.Add(1)
+				case <-stop:
+					return
+				}
 			}
-		}
-	}()
+		}()
+		return srv.VerifRouter(), &nTrig, &nShut
+	}
+	router, nTrigP, nShutP := newServer()
+	nTrig, nShut := nTrigP, nShutP
 	defer close(stop)
-	defer func() { verifhook.Order = nil }()
+	defer func() { verifhook.Order = nil; verifhook.Yield = nil }()
 
-	do := func(method, target string, body string) int {
+	serve := func(h http.Handler, method, target string, body string) int {
 		var rd io.Reader
 		if body != "" {
 			rd = strings.NewReader(body)
@@ -129,15 +134,25 @@ func runC18(r *simkit.Run) {
 			req = httptest.NewRequest(method, target, rd)
 		}()
 		if req == nil {
-			return -1 // not a request an HTTP server would parse
+			return -1
 		}
 		if body != "" {
 			req.Header.Set("Content-Type", "application/json")
 		}
 		rec := httptest.NewRecorder()
-		router.ServeHTTP(rec, req)
-		synctest.Wait()
+		h.ServeHTTP(rec, req)
 		return rec.Code
+	}
+	type issuedReq struct {
+		method, target, body string
+		status               int
+	}
+	var issued []issuedReq
+
+	do := func(method, target string, body string) int {
+		code := serve(router, method, target, body)
+		synctest.Wait()
+		return code
 	}
 
 	r.Eventf("write-operations-enabled=%t", write)
@@ -225,6 +240,7 @@ func runC18(r *simkit.Run) {
 		}
 		verifhook.Order = nil
 		r.Eventf("%s %s body=%t -> %v", method, target, body != "", codes)
+		issued = append(issued, issuedReq{method, target, body, codes[0]})
 		if dbsrv != nil {
 			if h := dbsrv.Hash(); h != dbHash {
 				r.Fail("http-request-changed-the-database", "db", "%s %s (body=%t, write enabled=%t) changed the keyper database", method, target, body != "", write)
@@ -248,6 +264,79 @@ func runC18(r *simkit.Run) {
 	}
 	if code := do("GET", "/v1/ping", ""); code != 200 {
 		r.Fail("read-only-unreachable", "ping", "GET /v1/ping -> %d after the request sequence", code)
+	}
+	// "the decision for a given method and path is deterministic": a second server instance
+	// gets the same requests in reverse order and must answer each of them the same way
+	if len(issued) > 0 {
+		routerB, trigB, shutB := newServer()
+		for i := len(issued) - 1; i >= 0; i-- {
+			q := issued[i]
+			code := serve(routerB, q.method, q.target, q.body)
+			synctest.Wait()
+			if code != q.status {
+				r.Fail("decision-depends-on-request-history", "status", "%s %s (body=%t) answered %d as request %d of the run and %d on a second server that got the same requests in reverse order", q.method, q.target, q.body != "", q.status, i, code)
+			}
+		}
+		if !write && (trigB.Load() != 0 || shutB.Load() != 0) {
+			r.Fail("write-operation-reached-in-read-only-mode", "reverse-order", "with write operations disabled a write operation was reached when the run's requests were replayed in reverse order")
+		}
+		r.Probe("order-independence-checked")
+	}
+	// concurrent bursts: 2-3 requests are in flight at once; they interleave at the yield points
+	// the overlay puts in front of every use of package sync in the API packages (none on the
+	// pinned tree: then only the start order is a choice). Every request must be answered as a
+	// fresh server answers it alone, and nothing may reach a write operation in read-only mode.
+	if c.Chance(400, "concurrent-bursts") && len(issued) >= 2 {
+		sched := simkit.NewSched(r)
+		cur := -1
+		verifhook.Yield = func(site string) {
+			if cur < 0 {
+				return
+			}
+			me := cur
+			sched.Park(fmt.Sprintf("req-%d", me), "yield", site, nil)
+			cur = me
+		}
+		for b := c.Range(1, 3, "bursts"); b > 0; b-- {
+			k := c.Range(2, 3, "burst-size")
+			var qs []issuedReq
+			for i := 0; i < k; i++ {
+				q := issued[c.Intn(len(issued), "burst-request")]
+				if i > 0 && c.Chance(400, "burst-same-request") {
+					q = qs[0]
+				}
+				qs = append(qs, q)
+			}
+			baseT, baseS := nTrig.Load(), nShut.Load()
+			got := make([]int, k)
+			done := 0
+			for i := range qs {
+				i := i
+				go func() {
+					sched.Park(fmt.Sprintf("req-%d", i), "start", "", nil)
+					cur = i
+					got[i] = serve(router, qs[i].method, qs[i].target, qs[i].body)
+					cur = -1
+					done++
+				}()
+			}
+			for steps := 0; done < k; steps++ {
+				if !sched.Step(func(*simkit.Req) any { return nil }) || steps > 10000 {
+					r.Fail("hang", "burst", "concurrent requests did not finish (done %d of %d)", done, k)
+				}
+			}
+			synctest.Wait()
+			for i, q := range qs {
+				if got[i] != q.status {
+					r.Fail("decision-depends-on-concurrent-requests", "status", "%s %s (body=%t) answered %d alone and %d while %d other requests were in flight", q.method, q.target, q.body != "", q.status, got[i], k-1)
+				}
+			}
+			if !write && (nTrig.Load() != baseT || nShut.Load() != baseS) {
+				r.Fail("write-operation-reached-in-read-only-mode", "concurrent", "with write operations disabled, a burst of concurrent requests %v reached a write operation", qs)
+			}
+			r.Probe("concurrent-bursts")
+		}
+		verifhook.Yield = nil
 	}
 	if !write && targetedWrite {
 		r.Nontrivial = true
